@@ -1,7 +1,91 @@
-import Atomman.Prelude
-open Atomman
+/-
+  C19 driver (stateful: the state is the `Log` object).
 
-/-- stub: replaced when the C19 model is built. -/
-def handleC19 (_toks : List String) : String := err "op"
+  strings on the wire are percent-encoded (`%XX` for `%`, space, control characters) and prefixed
+  with `:` so that the empty string is a token.
 
-def main : IO Unit := runDriver handleC19
+    new                              -> ok
+    read <0|1> :line :line …         -> ok <state> | err:<class>      (append flag first)
+    flatten :style <a|none> <b|none> -> ok <table> | err:<class>
+    scan :line …                     -> headers/footers of the single pass (evidence/debugging)
+
+    <state> = V:<version>|Vnone  D<y>-<m>-<d>|Dnone  N<k>  <sim>*
+    <sim>   = <table> (P0 | P1 <ncols> <nrows> :col… (:section :val…)*)
+    <table> = T <ncols> <nrows> :col…  (R<len> :tok…)*
+-/
+import Atomman.C19
+open Atomman Atomman.C19
+
+def hexVal? (c : Char) : Option Nat :=
+  if '0' ≤ c ∧ c ≤ '9' then some (c.toNat - '0'.toNat)
+  else if 'a' ≤ c ∧ c ≤ 'f' then some (c.toNat - 'a'.toNat + 10)
+  else if 'A' ≤ c ∧ c ≤ 'F' then some (c.toNat - 'A'.toNat + 10)
+  else none
+
+def decodeChars : List Char → Option (List Char)
+  | [] => some []
+  | '%' :: a :: b :: rest =>
+    match hexVal? a, hexVal? b, decodeChars rest with
+    | some x, some y, some r => some (Char.ofNat (16 * x + y) :: r)
+    | _, _, _ => none
+  | '%' :: _ => none
+  | c :: rest => (decodeChars rest).map (c :: ·)
+
+def decodeTok (s : String) : Option Str :=
+  match s.toList with
+  | ':' :: rest => decodeChars rest
+  | _ => none
+
+def hexDigit (n : Nat) : Char := if n < 10 then Char.ofNat (48 + n) else Char.ofNat (87 + n)
+
+def encodeStr (s : Str) : String :=
+  String.ofList (':' :: s.flatMap (fun c =>
+    if c == '%' || c.toNat < 33 || c.toNat == 127 then
+      ['%', hexDigit (c.toNat / 16 % 16), hexDigit (c.toNat % 16)]
+    else [c]))
+
+def showTable (t : Table) : List String :=
+  ["T", toString t.cols.length, toString t.rows.length] ++ t.cols.map encodeStr ++
+    t.rows.flatMap (fun r => ("R" ++ toString r.length) :: r.map encodeStr)
+
+def showPerf : Option Perf → List String
+  | none => ["P0"]
+  | some p => ["P1", toString p.cols.length, toString p.rows.length] ++ p.cols.map encodeStr ++
+      p.rows.flatMap (fun r => encodeStr r.1 :: r.2.map encodeStr)
+
+def showState (st : LogState) : String :=
+  " ".intercalate (
+    [match st.version with | none => "Vnone" | some v => "V" ++ encodeStr v,
+     match st.date with | none => "Dnone" | some d => s!"D{d.year}-{d.month}-{d.day}",
+     "N" ++ toString st.sims.length] ++
+    st.sims.flatMap (fun s => showTable s.thermo ++ showPerf s.perf))
+
+def parseOptInt? (s : String) : Option (Option Int) :=
+  if s = "none" then some none else s.toInt?.map some
+
+def handleC19 (st : LogState) (toks : List String) : LogState × String :=
+  match toks with
+  | ["new"] => (LogState.empty, "ok")
+  | "read" :: app :: rest =>
+    match parseBool? app, rest.mapM decodeTok with
+    | some a, some lines =>
+      match readLog st a lines with
+      | .ok st' => (st', "ok " ++ showState st')
+      | .error e => (st, err e.name)
+    | _, _ => (st, err "format")
+  | ["flatten", style, a, b] =>
+    match decodeTok style, parseOptInt? a, parseOptInt? b with
+    | some sty, some a, some b =>
+      match flattenTables sty (pySlice (st.sims.map (·.thermo)) a b) with
+      | .ok t => (st, "ok " ++ " ".intercalate (showTable t))
+      | .error e => (st, err e.name)
+    | _, _, _ => (st, err "format")
+  | "scan" :: rest =>
+    match rest.mapM decodeTok with
+    | some lines =>
+      let sc := scan {} lines
+      (st, s!"ok i={sc.i} th={sc.thermoHeaders} tf={sc.thermoFooters} ph={sc.perfHeaders} ps={sc.perfSims} pf={sc.perfFooters} old={sc.isOld}")
+    | none => (st, err "format")
+  | _ => (st, err "op")
+
+def main : IO Unit := runDriverS handleC19 LogState.empty
